@@ -222,9 +222,9 @@ HELPERS = [
         requires buf@.len() == size, hdr.size == size
         ensures
             final(self).main_sock == old(self).main_sock, neg_unchanged(*old(self), *final(self)),
-            !mem_table_ok(*hdr, size, buf@, files) ==> r is Err && final(self).backend == old(self).backend, // [C05]
+            !mem_table_ok(*hdr, size, buf@, files) ==> r is Err && final(self).backend == old(self).backend, // [C05,C13] one descriptor per region, every region valid
             mem_table_ok(*hdr, size, buf@, files) ==> called(*old(self), *final(self), Call::SetMemTable(mem_table_regions(buf@), file_ids(files->Some_0@)))
-                && (r is Ok) == ret_ok(*final(self)), // [C02,C03]""")),
+                && (r is Ok) == ret_ok(*final(self)), // [C02,C03,C13]""")),
     ("get_config", dict(contract="""
         requires old(self).error is None, hdr_valid_spec(*hdr), !old(self).main_sock.io_failed@
         ensures
